@@ -2948,8 +2948,8 @@ private:
 
     std::array<std::atomic<bool>, 3> interrupt_pending{{false, false, false}};
     std::atomic<bool> vinterrupt_pending{false};
-    std::atomic<bool> vinterrupt_context_switch;
-    std::atomic<u32> vinterrupt_address;
+    std::atomic<bool> vinterrupt_context_switch{false};
+    std::atomic<u32> vinterrupt_address{0};
 
     bool idle = false;
 
